@@ -172,4 +172,53 @@ theorem w6b_no_timeout_after_resume {n0 : Nat} {c c' : Cfg} (h : W6CInv n0 c) (h
   exact ⟨hA.flag, hA.noExc, fun r t k b _ => hA.noExc t.g b,
     fun r hh e k hs hx hk => w6b_stale_tick_noop c' w r hh e k hs hx hk (Or.inl hA.flag)⟩
 
+
+/-! ### the other two closures -/
+
+theorem St.w6b_onWaitDone_stale (t : St) (w e : Nat) (h : (t.wait w).flag = true ∨ (t.wait w).timedOut = true) :
+    t.onWaitDone w e = (.none, t) := by
+  unfold St.onWaitDone
+  dsimp only
+  rw [if_neg]
+  rcases h with h | h <;> simp [h]
+
+theorem St.w6b_onWaitEvent_stale (t : St) (w e : Nat) (h : (t.wait w).run = true ∨ (t.wait w).timedOut = true) :
+    t.onWaitEvent w e = (.none, t) := by
+  unfold St.onWaitEvent
+  dsimp only
+  rw [if_neg]
+  rcases h with h | h <;> simp [h]
+
+/-- a repeated or stale invocation of `w`'s `_on_done` (after `flag` or `timedOut` was set) changes nothing but the log
+    entry of the invocation -/
+theorem w6b_stale_done_noop (c : Cfg) (w r hh e : Nat) (k : List Frame) (hs : c.stack = .invoke r hh e :: k)
+    (hx : c.exn = none) (hk : (c.st.handler hh).kind = .waitDone w)
+    (hst : (c.st.wait w).flag = true ∨ (c.st.wait w).timedOut = true) : (step c).st = c.w6_invokeSt hh e := by
+  have hstep : (step c).st = ((c.w6_invokeSt hh e).onWaitDone w e).2 := by
+    rw [w6_step_invoke c r hh e k hs hx, Cfg.w6_invoke_waitDone c k r hh e w hk]
+  rw [hstep, St.w6b_onWaitDone_stale _ w e (by rw [Cfg.w6_invokeSt_wait]; exact hst)]
+
+/-- a repeated or stale invocation of `w`'s `_on_event` (after `run` or `timedOut` was set) changes nothing but the log
+    entry of the invocation -/
+theorem w6b_stale_event_noop (c : Cfg) (w r hh e : Nat) (k : List Frame) (hs : c.stack = .invoke r hh e :: k)
+    (hx : c.exn = none) (hk : (c.st.handler hh).kind = .waitEvent w)
+    (hst : (c.st.wait w).run = true ∨ (c.st.wait w).timedOut = true) : (step c).st = c.w6_invokeSt hh e := by
+  have hstep : (step c).st = ((c.w6_invokeSt hh e).onWaitEvent w e).2 := by
+    rw [w6_step_invoke c r hh e k hs hx, Cfg.w6_invoke_waitEvent c k r hh e w hk]
+  rw [hstep, St.w6b_onWaitEvent_stale _ w e (by rw [Cfg.w6_invokeSt_wait]; exact hst)]
+
+/-- `flag` changes only while the outcome is open: the step that sets `w.flag` starts with `flag = timedOut = false` -/
+theorem w6b_flag_set_when_open (c : Cfg) (w : Nat) (hne : ((step c).st.wait w).flag ≠ (c.st.wait w).flag) :
+    (c.st.wait w).flag = false ∧ (c.st.wait w).timedOut = false ∧ ((step c).st.wait w).flag = true := by
+  obtain ⟨r, h, e, k, src, hs, hx, hk, _, _, h6⟩ := w6_flag_needs_done c w hne
+  refine ⟨?_, ?_, h6⟩
+  · cases hf : (c.st.wait w).flag
+    · rfl
+    · rw [hf, h6] at hne; exact absurd rfl hne
+  · cases ht : (c.st.wait w).timedOut
+    · rfl
+    · exfalso
+      rw [w6b_stale_done_noop c w r h e k hs hx hk (Or.inr ht), Cfg.w6_invokeSt_wait] at hne
+      exact hne rfl
+
 end CV.Core
